@@ -10,8 +10,8 @@ the gradient step being projected, x0 = s, bounds, constraints; the line functio
 
 Oracle (implementation only): the REAL `step` from random feasible starts (random convex combinations of
 LP vertices of the feasible polytope), flat and device-shaped, on convex leaves and trees: shape,
-feasibility to 1e-6, cost non-increasing (1e-9 slack), strict decrease when the start is clearly not
-first-order optimal (projected-gradient residual r > 1e-3 with guaranteed slope r^2/stepsize > 1e-2, and LP gap < -1e-3), repeated steps monotone."""
+feasibility to 1e-6, cost non-increasing (1e-9 slack), strict decrease — for EVERY step size, also 2^-7 .. 2^-13 — when the start is
+clearly not first-order optimal (gradient-scaled residual |P(s - a g) - s| / a > 1e-1 and LP gap < -1e-3), repeated steps monotone."""
 from .. import common as C, gen, build
 from .. import gen_solve as G
 from .. import scipy_guard as SG
@@ -53,24 +53,38 @@ class C19(Prop):
                'max_violation': 0.0, 'stub_runs': 0, 'scipy_unsafe_skipped': 0}
 
   # ------------------------------------------------------------------ cases
-  def stub_case(self, rng, tier, mkind, st_p, ok_p, st_l, ok_l):
-    m = G.random_model(rng, tier, mkind, nmax=4)
+  def stub_case(self, rng, tier, mkind, st_p, ok_p, st_l, ok_l, n=None, variant=None):
+    """variant 'near': the projection answers a point within 2^-9 per entry of the start (a short move is still a move);
+    'edge': it answers points 2^-14 inside the lower bounds and the line answer is 1 (the returned flow is exactly that point)."""
+    from fractions import Fraction as Fr
+    m = G.random_model(rng, tier, mkind, nmax=4, n=n, classes=['Device', 'CDevice', 'IDevice2'] if n else None)
     R, n = G.model_rows(m), m['n']
     N = R*n
     mk = lambda st, ok, k: {'x': [C.fs(C.dy(rng, -4, 4, 3)) for _ in range(k)], 'success': ok, 'status': st, 'message': 'stub'}
     rl = mk(st_l, ok_l, 1)
     rl['x'] = [C.fs(C.dy(rng, 0, 1, 3))]
-    return {'kind': 'stub', 'model': m, 'p': G.gen_price(rng, R, n), 's': G.dyadic_flow(rng, m), 'sshape': rng.choice(['flat', 'dev']),
-            'stepsize': C.fs(C.dy(rng, 0.125, 4, 3)),
-            'res_proj': mk(st_p, ok_p, N), 'res_line': rl, 'probe': G.dyadic_flow(rng, m), 'tprobe': C.fs(C.dy(rng, 0, 1, 3))}
+    s = G.dyadic_flow(rng, m)
+    rp = mk(st_p, ok_p, N)
+    if variant == 'near':
+      rp['x'] = [C.fs(C.F(v) + Fr(rng.choice([-1, 1, 1]), 1 << 9)) for v in s]
+    elif variant == 'edge':
+      lb, _ = gen.tree_box(m['tree'], n)
+      rp['x'] = [C.fs(C.F(v) + Fr(1, 1 << 14)) for v in lb]
+      rl['x'] = ['1']
+    shape = rng.choice(['flat', 'dev'])
+    return {'kind': 'stub', 'model': m, 'p': G.gen_price(rng, R, n), 's': s, 'sshape': shape,
+            'sorder': rng.choice(['C', 'F']) if shape == 'dev' else 'C',
+            'stepsize': C.fs(C.dy(rng, 0.125, 4, 3)) if rng.random() < 0.7 else rng.choice(['1/128', '1/1024', '1/8192']),
+            'res_proj': rp, 'res_line': rl, 'probe': G.dyadic_flow(rng, m), 'tprobe': C.fs(C.dy(rng, 0, 1, 3))}
 
-  def overshoot_case(self, rng, tier):
+  def overshoot_case(self, rng, tier, n=None):
     """geometry in which only the limited minimisation ALONG THE PROJECTED SEGMENT keeps the cost from rising:
     strongly curved slots with stepsize x curvature > 2 started away from their optimum, next to slots that sit on a
     bound with the gradient pointing out of the box (so the projection changes the direction).  Leaves: ADevice with a
     per-slot polynomial a x^2 + b x, or IDevice2 with a steep marginal-cost line; single row or a row of a tree."""
     from fractions import Fraction as Fr
-    n = rng.randint(2, 5)
+    big = n is not None
+    n = n or rng.randint(2, 5)
     alpha = rng.choice([1, 2, 4])
     cls = rng.choice(['ADevice', 'ADevice', 'IDevice2'])
     pinned = [rng.random() < 0.4 for _ in range(n)]
@@ -113,7 +127,7 @@ class C19(Prop):
           price.append(-(pl[-1] + (ph[-1] - pl[-1])*Fr(rng.randint(2, 6), 8)))     # optimum strictly inside
       d = {'cls': 'IDevice2', 'n': n, 'lb': [C.fs(x) for x in lb], 'hb': [C.fs(x) for x in hb], 'cbs': [],
            'prm': {'p_l': [C.fs(x) for x in pl], 'p_h': [C.fs(x) for x in ph]}, '_py': {'bform': 'table', 'cform': None}}
-    if rng.random() < 0.5:
+    if big or rng.random() < 0.5:
       m = {'tree': G.leaf_tree(d, 'a'), 'n': n}
       p = [C.fs(x) for x in price]
       st = [C.fs(x) for x in start]
@@ -216,8 +230,10 @@ class C19(Prop):
           break
       except Exception:
         continue
-    return {'kind': 'real', 'model': m, 'p': G.gen_price(rng, R, n), 'sshape': rng.choice(['flat', 'dev']),
-            'stepsize': C.fs(C.dy(rng, 0.125, 4, 3)), 'seed': rng.randrange(1 << 30), 'repeat': rng.choice([1, 1, 2, 3, 4])}
+    shape = rng.choice(['flat', 'dev'])
+    return {'kind': 'real', 'model': m, 'p': G.gen_price(rng, R, n), 'sshape': shape, 'sorder': rng.choice(['C', 'F']) if shape == 'dev' else 'C',
+            'stepsize': C.fs(C.dy(rng, 0.125, 4, 3)) if rng.random() < 0.65 else rng.choice(['1/128', '1/1024', '1/8192', '1/32']),
+            'seed': rng.randrange(1 << 30), 'repeat': rng.choice([1, 1, 2, 3, 4])}
 
   def corpus(self):
     """minimised past failure: the ascent-sign no-op / rejection of device-shaped starts."""
@@ -230,7 +246,12 @@ class C19(Prop):
     f3 = json.loads('{"kind": "real", "model": {"tree": {"k": "node", "id": "root", "sb": [["183/32", "221/32"], ["83/16", "25/4"], ["15/2", "159/16"]], "ch": [{"k": "leaf", "id": "h1", "dev": {"cls": "Device", "n": 3, "lb": ["3/2", "3/4", "3"], "hb": ["3/2", "3/4", "17/4"], "cbs": [["3/2", "15/8", 0, 1], ["3/4", "9/8", 1, 2], ["111/32", "17/4", 2, 3]], "prm": {}, "_py": {"bform": "pair", "cform": "4tuples"}}}, {"k": "mf", "id": "m2", "dev": {"cls": "CDevice", "n": 3, "lb": ["1", "3/4", "5/4"], "hb": ["1", "3/4", "5/4"], "cbs": [["1", "11/8", 0, 1], ["2", "9/4", 1, 3]], "prm": {"a": "-1/4", "b": "3/2"}, "_py": {"bform": "table", "cform": "4tuples"}}, "flows": ["e", "h"], "ratios": ["11/4", "11/4"], "ctype": "ineq"}, {"k": "leaf", "id": "h3", "dev": {"cls": "CDevice2", "n": 3, "lb": ["5/4", "5/4", "5/4"], "hb": ["4", "4", "4"], "cbs": [["219/32", "159/16", 0, 3]], "prm": {"p_l": "-9/4", "p_h": "-1"}, "_py": {"bform": "scalar", "cform": "2tuple"}}}], "sub": false}, "n": 3}, "p": [["-3/8", "1/4", "1/4"], ["-1/4", "7/4", "-17/8"], ["1/8", "11/8", "5/8"], ["11/8", "-3/2", "-3/8"]], "sshape": "dev", "stepsize": "1/2", "seed": 484437361, "repeat": 4, "start": ["1.5000000000000002", "0.7500000000000001", "3.594632874115084", "0.5600769416315701", "0.3946726066792741", "1.1795503777120864", "0.4399230583684301", "0.355327393320726", "0.07044962228791385", "3.3187130546622456", "3.6875", "2.9312869453377552"], "family": "corpus"}')
     # F4: the projection answers success=False / status 8, step accepts it and returns a flow violating an aggregate equality by ~3e-6
     f4 = json.loads('{"kind": "real", "model": {"tree": {"k": "node", "id": "root", "sb": [["1/8", "31/32"], ["-5/4", "7/2"], ["-97/32", "-1/8"], ["-19/16", "-21/32"], ["15/16", "15/16"], ["-9/4", "-13/16"]], "ch": [{"k": "leaf", "id": "a1", "dev": {"cls": "Device", "n": 6, "lb": ["-4", "-4", "-4", "-4", "-4", "-4"], "hb": ["0", "0", "0", "0", "0", "0"], "cbs": [], "prm": {}, "_py": {"bform": "scalar", "cform": null}}}, {"k": "leaf", "id": "b2", "dev": {"cls": "TDevice", "n": 6, "lb": ["3/4", "11/4", "0", "7/4", "7/4", "7/4"], "hb": ["7/2", "7/2", "15/4", "2", "2", "7/2"], "cbs": [], "prm": {"sustainment": "7/8", "efficiency": "11/4", "t_init": "9/4", "t_optimal": "47/2", "t_range": "1/4", "t_external": ["21", "-5/2", "27", "39/2", "17", "11/2"], "c": "1/2"}, "_py": {"bform": "pair", "cform": null}}}], "sub": false}, "n": 6}, "p": ["3/8", "-5/2", "3/2", "-3/2", "-21/8", "3/8"], "sshape": "flat", "stepsize": "7/4", "seed": 389054278, "repeat": 2, "start": ["-2.105506050930447", "-3.899109067677524", "-0.41695968996687827", "-3.1461390439213592", "-1.03673033739872", "-3.191760668932298", "2.2961969811729945", "3.5", "0.29195968996687827", "2.0", "1.97423033739872", "2.3792606689322984"], "family": "corpus"}')
-    return [{'kind': 'real', 'model': m, 'p': '1/2', 'sshape': sh, 'stepsize': '1', 'seed': 7, 'repeat': 3} for sh in ('dev', 'flat')] + [f3, f4]
+    # P1 (open): with a small step size the whole projected segment changes the cost by less than ~1e-3; the inner one-variable SLSQP run
+    # (no jac, default ftol 1e-6) stops at x = 0 with success and step is a silent no-op although the start is clearly sub-optimal
+    dp = {'cls': 'Device', 'n': 3, 'lb': ['0']*3, 'hb': ['4']*3, 'cbs': [], 'prm': {}, '_py': {'bform': 'scalar', 'cform': None}}
+    p1 = {'kind': 'real', 'family': 'corpus', 'model': {'tree': {'k': 'leaf', 'id': 'a', 'dev': dp}, 'n': 3}, 'p': '1', 'sshape': 'flat',
+          'stepsize': '1/4096', 'seed': 0, 'start': ['2', '2', '2'], 'repeat': 1}
+    return [{'kind': 'real', 'model': m, 'p': '1/2', 'sshape': sh, 'stepsize': '1', 'seed': 7, 'repeat': 3} for sh in ('dev', 'flat')] + [f3, f4, p1]
 
   def cases(self, rng, tier, count):
     out = []
@@ -242,8 +263,14 @@ class C19(Prop):
             # projection answers (st, ok), line succeeds; and projection succeeds, line answers (st, ok)
             out.append(self.stub_case(rng, tier, mkind, st, ok, 0, True))
             out.append(self.stub_case(rng, tier, mkind, 0, True, st, ok))
-        out.append(self.stub_case(rng, tier, mkind, 8, False, 8, False))
+        # double faults: the projection merely tolerated (status 8, success False) or clean, times EVERY answer of the limited minimisation
+        for st in G.SLSQP_STATUSES:
+          for ok in (True, False):
+            out.append(self.stub_case(rng, tier, mkind, 8, False, st, ok))
         out.append(self.stub_case(rng, tier, mkind, 4, False, 9, False))
+        for variant in ('near', 'near', 'edge', 'edge'):
+          out.append(self.stub_case(rng, tier, mkind, 0, True, 0, True, variant=variant))
+      out.append(self.stub_case(rng, tier, 'leaf', 0, True, 0, True, n=260))       # more than 256 variables
     for _ in range(6*reps):     # stubbed step after an earlier use of the tree and a leaf re-rating; integer-typed start
       m, edit = G.history_model(rng, tier)
       c = self.stub_case(rng, tier, 'leaf', 0, True, 0, True)
@@ -258,6 +285,10 @@ class C19(Prop):
       R, n = G.model_rows(m), m['n']
       c.update({'model': m, 'p': price, 's': flow, 'sdtype': 'int', 'probe': G.dyadic_flow(rng, m), 'stepsize': rng.choice(['1/2', '1', '3/4'])})
       c['res_proj']['x'] = [C.fs(C.dy(rng, -4, 4, 3)) for _ in range(R*n)]
+      out.append(c)
+    for _ in range(reps):       # one real overshoot geometry with more than 256 variables
+      c = self.overshoot_case(rng, tier, n=260)
+      c['repeat'] = 1
       out.append(c)
     for _ in range(count):
       out.append(self.real_case(rng, tier))
@@ -274,7 +305,7 @@ class C19(Prop):
       G.touch(dev)
       G.apply_edit(dev, case['edit'])
     p = G.price_arg(case['p'])
-    s = G.int_flow_arg(case['s'], m, case['sshape']) if case.get('sdtype') == 'int' else G.flow_arg(case['s'], m, case['sshape'])
+    s = G.int_flow_arg(case['s'], m, case['sshape']) if case.get('sdtype') == 'int' else G.flow_arg(case['s'], m, case['sshape'], case.get('sorder', 'C'))
     fp, fl = G.fake_result(case['res_proj']), G.fake_result(case['res_line'])
     rec = {}
     probes = {'proj': [C.pf(v) for v in case['probe']], 'line': [C.pf(case['tprobe'])]}
@@ -371,7 +402,7 @@ class C19(Prop):
     self.ev['histories'] = self.ev.get('histories', 0) + 1
     where = 'tree %s, price %s, stepsize %s, first call: %s, then leaf %s re-rated to bounds %s / %s%s%s, start %s (%s)' % (
       base['classes'], case['p'], case['stepsize'], case['first'], edit['leaf'], edit['lb'], edit['hb'],
-      (', cbounds %s' % edit['cbs']) if 'cbs' in edit else '', (', a=%s' % edit['a']) if 'a' in edit else '', s.round(6).tolist(), case['sshape'])
+      (', cbounds %s' % edit['cbs']) if 'cbs' in edit else '', ((', a=%s' % edit['a']) if 'a' in edit else '') + ((', parameters %s' % edit['prm']) if edit.get('prm') else ''), s.round(6).tolist(), case['sshape'])
     def run(d, start):
       arg = start.reshape(R, n) if case['sshape'] == 'dev' else start.copy()
       try:
@@ -470,6 +501,8 @@ class C19(Prop):
     costs = [f(cur)]
     for k in range(case['repeat']):
       arg = cur.reshape(R, n) if case['sshape'] == 'dev' else cur.copy()
+      if case['sshape'] == 'dev' and case.get('sorder') == 'F':       # the same matrix held in Fortran memory order (e.g. frame.values.T)
+        arg = n_.asfortranarray(arg)
       if k == 0 and case.get('sdtype') == 'int':       # the caller's flow is integer-typed (int ndarray or a plain list of ints)
         arg = G.int_flow_arg(case['start'], m, case['sshape'], as_list=bool(case.get('slist')))
       # how far from first-order optimal is the current point (independent of the implementation's projection)
@@ -529,16 +562,29 @@ class C19(Prop):
       if c1 > c0 + 1e-9*max(1.0, abs(c0)):
         return [{'key': dict(base, kind='cost-increase'), 'detail': 'step %d raised the cost %.12g -> %.12g; %s' % (k + 1, c0, c1, where)}]
       scale = max(1.0, float(n_.abs(gx).max()))
-      # "clearly sub-optimal": the slope the descent lemma guarantees along the segment, resid^2/stepsize, is >= 1e-2, so the
-      # first move of the inner one-variable SLSQP run (default ftol 1e-6, step = -slope) changes the cost by >= 1e-4 >> ftol;
-      # an LP independently confirms a descent direction
-      if resid > 1e-3 and resid*resid/alpha > 1e-2 and gap < -1e-3*scale:
+      # "clearly sub-optimal", whatever the step size: the projected-gradient norm |P(s - a g) - s| / a (a gradient-scaled residual) is
+      # above 1e-1 and an LP independently confirms a descent direction.  Then ANY step size > 0 must lower the cost.
+      pgrad = resid/alpha
+      if resid > 0 and pgrad > 1e-1 and gap < -1e-3*scale:
         case['_active'] = True
         self.ev['strict_checked'] += 1
         if not c1 < c0 - 1e-9*max(1.0, abs(c0)):
-          return [{'key': dict(base, kind='no-progress', licq=G.licq(dev, N, poly, cur)[0], dup=G.parallel_active_pair(dev, N, poly, cur)),
-                   'detail': 'step %d made no progress (cost %.12g -> %.12g) although the start is not first-order optimal: projected-gradient residual %.3g, '
-                             'LP descent gap %.3g; %s' % (k + 1, c0, c1, resid, gap, where)}]
+          slope = float(gx.dot(pr.x - cur))                 # directional derivative of the cost along the projected segment
+          try:
+            lx = n_.array(o.x, dtype=float).reshape(-1)
+            line_x0 = bool(o.success) and lx.size == 1 and float(lx[0]) == 0.0
+          except Exception:
+            line_x0 = False
+          key = dict(base, kind='no-progress', licq=G.licq(dev, N, poly, cur)[0], dup=G.parallel_active_pair(dev, N, poly, cur))
+          if line_x0:
+            key['line_x0'] = True
+          if line_x0 and abs(slope) < 2e-3:                 # the whole projected segment changes the cost by less than ~1e-3
+            key['small_step'] = True
+            self.ev['small_slope_noop'] = self.ev.get('small_slope_noop', 0) + 1
+          return [{'key': key,
+                   'detail': 'step %d made no progress (cost %.12g -> %.12g) although the start is not first-order optimal: projected-gradient norm %.3g '
+                             '(residual %.3g at stepsize %g), LP descent gap %.3g, slope along the projected segment %.3g, limited minimisation answered x=%s success=%s; %s' % (
+                               k + 1, c0, c1, pgrad, resid, alpha, gap, slope, getattr(o, 'x', None), getattr(o, 'success', None), where)}]
       cur = nxt
       costs.append(c1)
     if case['repeat'] > 1:
